@@ -333,9 +333,23 @@ def run(prog, rep):
     dom = cfg.dominators()
     stores = [n for n in cfg.nodes if n.kind == 'stmt' and n.ast is not None and
               any(isinstance(c, ast.Call) and call_name(c) in ('__setattr__', 'setattr') for c in walk_no_nested(n.ast))]
-    if len(stores) != 1:
+    if not stores:
         raise AnalysisError('Labels._set_fields: field store not found')
+    # a value the validators have rejected is never stored: no store is reachable from a rejection (through a handler that
+    # swallows it)
+    rejections = [n for n in cfg.nodes if n.kind == 'stmt' and isinstance(n.ast, ast.Raise) and n.ast.exc is not None and
+                  not any(isinstance(p_, ast.ExceptHandler) for p_ in _stmt_ancestors(n.ast, sf))]
+    for st_ in stores:
+        # ... within the same iteration of the per-field loop (the store of the NEXT field is not the question)
+        heads = {h.id for h in cfg.nodes if h.kind == 'test' and h.tag == 'for' and any(p_ is h.ast for p_ in _stmt_ancestors(st_.ast, sf))}
+        swallowed = [r_ for r_ in rejections if cfg.paths_avoiding(r_, st_, heads)]
+        rep.instance('R3', f'Labels._set_fields: store {norm(st_.ast, 50)} reachable after a rejection: {bool(swallowed)}')
+        if swallowed:
+            rep.violation('R3', loc(lmod, st_.ast), 'Labels._set_fields', f'{norm(st_.ast, 50)} after a swallowed rejection',
+                          f'the field is stored on a path that starts at the rejection `{norm(swallowed[0].ast, 70)}`: a handler catches the '
+                          f'validation error and the invalid value is kept (for instance when decoding from text, which is forgiving)')
     store = stores[0]
+    more_stores = stores[1:]
 
     def derived(markers):
         """locals whose value derives from an expression mentioning one of the marker attributes (tuple unpacking, loop targets followed)"""
@@ -380,7 +394,7 @@ def run(prog, rep):
                           f'the scalar or the list form of a label value is no longer checked against its {what} validator')
             continue
         g = guards[0]
-        if g.id not in dom.get(store.id, set()):
+        if any(g.id not in dom.get(s_.id, set()) for s_ in [store] + more_stores):
             rep.violation('R3', loc(lmod, store.ast), 'Labels._set_fields', 'store precedes validation',
                           'the field is stored before it is validated: a rejected value stays in the object')
             continue
@@ -598,8 +612,18 @@ def run(prog, rep):
                             isinstance(r.func, ast.Name) and r.func.id == 'len' and r.args:
                         if any(isinstance(x, ast.Raise) for x in ast.walk(t.ast._parent)):
                             out.append((t, ctext(r.args[0])))
+                            size_ops.append((t, type(cj.ops[0]).__name__))
         return out
+    size_ops = []
     tests = size_tests()
+    # the branches agree on where the limit lies: what one branch accepts and encodes, the other accepts when it is handed that text
+    kinds = sorted({k for _, k in size_ops})
+    rep.instance('R5', f'JSONData.__init__: size tests reject when MAX_SIZE {"/".join("<" if k == "Lt" else "<=" for k in kinds)} len(..) ({len(size_ops)} tests)')
+    if len(kinds) > 1:
+        odd = [t for t, k in size_ops if k == 'LtE']
+        rep.violation('R5', loc(jd.module, odd[0].ast), 'JSONData.__init__', f'size tests disagree: {norm(odd[0].ast, 60)} rejects a length equal to the limit',
+                      'one branch of the constructor rejects a text whose length equals MAX_SIZE while another accepts it: a value accepted '
+                      'as an object and encoded to exactly MAX_SIZE characters is rejected when that encoding is decoded again')
     for sn_ in jstores:
         stored = sn_.ast.value
         stxt = ctext(stored, jenv)
